@@ -83,7 +83,7 @@ def gen_labels(r, n, mode=None, keyword_rate=0.0):
     return out, mode
 
 
-def gen_states(r, card, mode):
+def gen_states(r, card, mode, allow_negative=False):
     """State names for one variable.  None = leave pgmpy's default (0..card-1)."""
     if mode == "default":
         return None
@@ -91,7 +91,7 @@ def gen_states(r, card, mode):
         pool = ["yes", "no", "low", "mid", "high", "s0", "s1", "s2", "s3", "on", "off", "a", "b", "c", "d", "T", "F"]
         return r.sample(pool, card)
     if mode == "int":
-        return r.sample([0, 1, 2, 3, 5, 7, 10, 20, 30, -1, 100], card)
+        return r.sample([0, 1, 2, 3, 5, 7, 10, 20, 30, 100] + ([-1] if allow_negative else []), card)
     if mode == "int_sorted":
         return sorted(r.sample(range(0, 12), card))
     if mode == "mixed":
